@@ -174,6 +174,28 @@ def check_C02(ctx):
 C08_HISTORIES = ["H1-upload", "H1z-upload-3-chunks", "H2-ac-overwrite", "H3-wrong-hash-cleanup", "H4-evict", "H5-backend-fetch"]
 
 
+def check_C12(ctx):
+    th = ctx.thorough()
+    b = ctx.bin(DISK)
+    budget = 2400 if th else 150
+    shards = 8 if th else 4
+    jobs = []
+    for mode in ("zstd", "uncompressed"):
+        for sh in range(shards):
+            jobs.append(Job(b, "TestVfC12", name="C12seam:%s#%d" % (mode, sh), timeout=budget + 120,
+                            env={"VERIF_PARAM_MODE": mode, "VERIF_SHARD": "%d/%d" % (sh, shards), "VERIF_BUDGET_S": str(budget), "GOMAXPROCS": "2"}))
+    jobs += e2cache_jobs(ctx, "C12", 4 if th else 3, budget, 4 if th else 2, proxies=("1",))
+    g = ctx.bin(GRID)
+    for via in ("http", "grpc"):
+        for mode in ("zstd", "uncompressed"):
+            jobs.append(Job(g, "TestC12Chain", name="C12chain:%s/%s" % (via, mode), timeout=600, env={"VERIF_PARAM_VIA": via, "VERIF_PARAM_MODE": mode}))
+    return dict(level="fault_enumeration", jobs=jobs,
+                rule="seam level: kind {CAS,AC,RAW} x storage mode x size known/unknown x plain/zstd read x backend deviation {none, error, not found, nil reader, size metadata +1/-1/-1/0/over max_proxy_blob_size, one-byte reads, cancelled context, stream error at EVERY byte offset, clean EOF at EVERY byte offset}; 1 deviation quick, pairs (second read deviates too) thorough; then a local-only read with the backend emptied (poisoning) and the quiescence invariants; plus explicit-state BFS over operation sequences with a backend (write-through exactly once, decodable; read-through; faults mixed into sequences); non-trivial = distinct fault cells completed with the oracle checked",
+                assumptions=["the backend is trusted for content it completely delivers (no bit flips)",
+                             "scriptable in-memory cache.Proxy at the seam the real proxies implement; HTTP/gRPC proxy implementations are exercised by the chained-cache part",
+                             "objects are 60-150 logical bytes so that every byte offset of the stored form is enumerated"] + E2_ASSUME[:2])
+
+
 def check_C17(ctx):
     th = ctx.thorough()
     jobs = e2lru_jobs(ctx, "C17", 6 if th else 4, 1500 if th else 100, hard_extras=(-1, 0, 1, 2))
@@ -237,7 +259,7 @@ def check_C13(ctx):
                              "a method unknown to the harness's read-only list is treated as mutating"])
 
 
-CHECKS = {"C01": check_C01, "C02": check_C02, "C08": check_C08, "C09": check_C09, "C13": check_C13, "C17": check_C17, "C03": check_C03, "C04": check_C04, "C05": check_C05, "C07": check_C07}
+CHECKS = {"C01": check_C01, "C02": check_C02, "C08": check_C08, "C09": check_C09, "C12": check_C12, "C13": check_C13, "C17": check_C17, "C03": check_C03, "C04": check_C04, "C05": check_C05, "C07": check_C07}
 
 # per-property manifest metadata
 META = {
@@ -271,6 +293,12 @@ META = {
         note="Retry-after-drain is required only when the item fits under the limit next to what is accounted after the drain (with limit close to max_size a full cache refuses large items permanently: admission precedes eviction by design).",
         technique="explicit-state BFS + preemption-bounded schedule DFS over the real code with the remover under scheduler control",
         design_ref="DESIGN.md 3 (C17)"),
+    "C12": dict(
+        category="fault_enumeration", engine="E3 faultx + E2 seqx",
+        text="Deviation-bounded enumeration of backend behaviour against the real disk cache: at the cache.Proxy seam every kind x storage mode x size known/unknown x plain/zstd read x {error, not found, nil reader, five size-metadata lies, one-byte reads, cancelled context, stream error at every byte offset, clean EOF at every byte offset} (pairs in the thorough tier), followed by a fault-free read, a local-only read with the backend emptied (poisoning) and the quiescence invariants (reserved 0, directory == index, every backend stream closed); through the real httpproxy (in front of a plain HTTP object store with a fault layer cutting responses at every byte, 404/500, no Content-Length; two identical rounds must not grow goroutines/fds) and the real grpcproxy chained to a second real cache (write-through reaches the backend once and a fresh peer recovers the identical blob; absent entries miss without panic); plus BFS over operation sequences with a backend (write-through exactly once and decodable by the independent format reader).",
+        note="Backend trusted for content it delivers completely. S3/Azure/GCS client libraries are not executed (no offline fakes); they share the seam and the disk-layer checks.",
+        technique="exhaustive single/pair fault enumeration at every stage and byte offset of the backend interaction on the real code",
+        design_ref="DESIGN.md 2.4, 3 (C12)"),
     "C13": dict(
         category="exploration", engine="E4 grid",
         text="Exhaustive finite access matrix against the real start-up code: main's run() is started with flags for each of {no auth, htpasswd, mTLS} x allow_unauthenticated_reads x enable_endpoint_metrics (x remote asset API), on unix sockets; every HTTP method x endpoint (/cas, /ac, instance-prefixed /ac, /status, /metrics, /) and every registered gRPC method (discovered from all linked protobuf service descriptors) is called with every credential state (none, malformed, not-basic, unknown user, wrong/empty password, via authorization and via :authority; no / unverified / valid client certificate). Oracle written from the property: mutating or unknown => refused without valid credentials always; read-only => refused unless allow_unauthenticated_reads; valid => never refused; health Check always open; cache content unchanged.",
